@@ -10,6 +10,8 @@ precedence/associativity table allows (so the real parser's table is what is bei
   stages   - every pair tree x every partition of its leaves into {literal, constant, macro
              parameter, label, rep iterator}: the value must not depend on when leaves get resolved
   depth2   - (thorough) all trees with two binary children
+  shared   - four constants shared by ~1000 expressions of one program (unary / binary / ?: uses interleaved with
+             plain re-observations): using a constant under an operator never changes it for the other expressions
 Each value is observed completely (10 x 32-bit slices + sign) through assembled op words; oracle
 = reference evaluator R5 over Python ints.
 """
@@ -77,6 +79,12 @@ def build_program(cases):
             elif st == 'const':
                 cn = f'k{i}_{name}'
                 consts.append(f'{cn} = {R5.render(lit(v))}')
+                leafmap[name] = cn
+            elif st == 'shared':
+                cn = f'sh_{name}'
+                d = f'{cn} = {R5.render(lit(v))}'
+                if d not in consts:
+                    consts.append(d)
                 leafmap[name] = cn
             elif st == 'param':
                 params.append(name)
@@ -270,6 +278,37 @@ def fam_stages(tier):
                 yield Case((op, ('id', 'b'), ('id', 'a')), {'a': big, 'b': other}, {'a': st, 'b': 'const'}, tag=f'stages big {op}')
 
 
+SHARED = {'s0': 5, 's1': -3, 's2': 0, 's3': (1 << 64) + 1}
+
+
+def fam_shared(tier):
+    """constants shared by many expressions of ONE program: using a constant under an operator must not change what
+    the constant means for the other (earlier and later) expressions."""
+    from fjv.ref import expr as R5
+    names = list(SHARED)
+
+    def case(tree, tag):
+        used = sorted({n for n in names if repr(('id', n)) in repr(tree)})
+        return Case(tree, {n: SHARED[n] for n in used}, {n: 'shared' for n in used}, tag=tag)
+    for n in names:
+        leaf = ('id', n)
+        yield case(leaf, 'shared plain')
+        for u in R5.UNARY:
+            yield case((u, leaf), f'shared unary {u}')
+            yield case(leaf, 'shared plain')
+            yield case((u, (u, leaf)), f'shared unary-unary {u}')
+            for b in R5.BINARY:
+                yield case((b, (u, leaf), leaf), f'shared {u} {b} left')
+                yield case((b, leaf, (u, leaf)), f'shared {u} {b} right')
+                yield case(leaf, 'shared plain')
+                for m in names:
+                    if m != n:
+                        yield case((b, (u, leaf), ('id', m)), f'shared2 {u} {b}')
+        for b in R5.BINARY:
+            yield case((b, leaf, leaf), f'shared {b} self')
+            yield case(('?:', leaf, (b, leaf, 1), leaf), f'shared ternary {b}')
+
+
 def fam_depth2(tier):
     from fjv.ref import expr as R5
     ops = R5.BINARY
@@ -328,7 +367,7 @@ def chain_texts():
 
 
 # ------------------------------------------------------------------ workers
-FAMILIES = {'pairs': fam_pairs, 'mixes': fam_mixes, 'stages': fam_stages, 'depth2': fam_depth2}
+FAMILIES = {'pairs': fam_pairs, 'mixes': fam_mixes, 'stages': fam_stages, 'depth2': fam_depth2, 'shared': fam_shared}
 BATCH = 150
 
 
@@ -427,6 +466,7 @@ def make_tasks(tier, only=None):
     tasks += [('pairs', tier, p, 16) for p in range(16)]
     tasks += [('mixes', tier, p, 8) for p in range(8)]
     tasks += [('stages', tier, p, 32) for p in range(32)]
+    tasks += [('shared', tier, p, 4) for p in range(4)]
     if tier == 'thorough':
         tasks += [('depth2', tier, p, 16) for p in range(16)]
     if only:
